@@ -3,5 +3,6 @@
 P=$1; shift
 cd /repo && git apply "$P" || { echo "patch does not apply"; exit 9; }
 cd /verif
+export VERIF_EVIDENCE_DIR=/tmp/seedtest_evidence VERIF_REPLAY_DIR=/tmp/seedtest_replays
 for c in "$@"; do ./check $c --tier ${TIER:-quick} > /tmp/seedtest_$c.log 2>&1; echo "$c exit=$? $(tail -1 /tmp/seedtest_$c.log)"; grep -m2 "^VIOLATION" /tmp/seedtest_$c.log; done
 cd /repo && git checkout -- . && git status --short | head -3
